@@ -103,6 +103,10 @@ func dereferenceJSONPointer(s *Schema, sptr string) (_ *Schema, err error) {
 			if len(seg) > 1 && seg[0] == '0' {
 				return nil, fmt.Errorf("segment %q has leading zeroes", seg)
 			}
+			// strconv.Atoi alone would accept a sign, which RFC 6901 does not allow.
+			if seg == "" || strings.Trim(seg, "0123456789") != "" {
+				return nil, fmt.Errorf("invalid int: %q", seg)
+			}
 			n, err := strconv.Atoi(seg)
 			if err != nil {
 				return nil, fmt.Errorf("invalid int: %q", seg)
@@ -123,6 +127,10 @@ func dereferenceJSONPointer(s *Schema, sptr string) (_ *Schema, err error) {
 		}
 	}
 	if s, ok := v.Interface().(*Schema); ok {
+		if s == nil {
+			// The pointer ends at a keyword that can hold a schema but is absent.
+			return nil, errors.New("refers to an absent schema")
+		}
 		return s, nil
 	}
 	return nil, fmt.Errorf("does not refer to a schema, but to a %s", v.Type())
